@@ -307,6 +307,7 @@ async def _run_schedule(case: dict, schedule: list[int]) -> tuple[Outcome | None
         transport.gating = False
         await receive("1;255;0;0;17;2.0\n")
         transport.calls.clear()
+        pre_start = pre_calls = 0  # (the log starts over: nothing written so far is looked at)
         transport.gating = True
     specs = []
     for idx, sender in enumerate(case["senders"]):
@@ -445,6 +446,10 @@ async def _run_schedule(case: dict, schedule: list[int]) -> tuple[Outcome | None
         buffered = [r for r in recs if r["buffered"]]
         got_buffered = [v for v in got if any(r["value"] == v for r in buffered)]
         if not buffered:
+            continue
+        if any(not r["buffered"] and any(b["value"] == r["value"] for b in buffered) for r in recs):
+            # the same value was also sent with buffering disabled: a write of it cannot be attributed to the parked command
+            # or to the direct send, so the last-writer rule is not judged for this key (the counts above still are)
             continue
         if not got_buffered:
             return fail("update-lost:never-written", where), factors, info
